@@ -435,7 +435,7 @@ def run_case(case):
             # probes
             solset = set(sols)
             class_all, class_sols = flat.enumerate_solutions(types, rf, env0, class_stmts, dyn)
-            sel = case["sel"]
+            sel = list(case.get("sel") or [0]) * 8      # (the structural reducer may have shortened the list)
             # (i) no trace: a value the class allows but this call's inline forbade must be accepted by a later plain pin
             forb = [v for v in class_sols if v not in solset]
             if forb and inline:
